@@ -28,6 +28,26 @@ CHECKS = {
    text="All insert histories of 2 (quick) / 3 (thorough) keys through the public API followed by 2 / 1 further operations (update, remove, absent lookup) with EVERY assignment of digests over 1, 2 or 4 levels symbolic and the collision limit symbolic in 0..255: dictionary semantics and VerifyMap after every operation; an insert is refused with CollisionLimitError exactly when the first-level digest is already shared by more than the limit of entries with distinct second-level digests, leaving the map unchanged; updates are always accepted.",
    note="Bounds: T=256, value sizes 1..300, keys within the inline key limit. Outside: more keys per group (limits above the number of keys behave as 'never reached'), external collision groups larger than the bound.",
    ref="6/C12"),
+ "C03": dict(
+   text="Storage half of the property, decided on the real PersistentSlabStorage over a ledger double: from ANY coherent (write set, cache, ledger) state over the identifier universe, no API call other than the two commits issues a ledger write or delete; a commit never writes a temporary-address slab; after a fault-free commit a brand-new storage over the same ledger shows exactly the pre-commit view for every owned identifier (so abandoning the in-memory storage at any point leaves the last commit). Dirty-mark completeness of container operations is asserted by the C10 nested-history harness through VerifyArray on the parent (stale parent detection); byte-level reload equality is C07/C08's subject.",
+   note="Bounds: 3 (quick) / 4 (thorough) identifiers incl. one temporary, every combination of {absent, pending delete, pending version} x {nothing, ledger only, cached delete, cached+ledger}, versions symbolic; commits with 1 (quick) / 1..2 (thorough) workers as modelled goroutines. EncodeSlab/DecodeSlab are replaced by an abstract 9-byte codec inside the engine (native replay uses the real codec). Outside: the composition argument 'step + dirty marks + reload equality => every history' is manual.",
+   ref="6/C03"),
+ "C04": dict(
+   text="Both commits on the real storage with modelled goroutines, ALL Go map iteration orders of the write set explored (range over map forks over every remaining entry) and all sync-level interleavings of the encoder workers (up to partial-order equivalence): the deterministic commit issues exactly one ledger call per owned pending entry in strictly ascending (owner, index) order; the relaxed commit issues the same set in some order; the resulting registers depend only on the write set.",
+   note="Bounds: 3 pending entries over 2 owners (+ optional temporary one), 1 (quick) / 1..2 (thorough) workers. Outside: pool reuse and encoder-internal map ranges (need the byte-level encoders, see C06/C07 stage), fresh-process effects.",
+   ref="6/C04"),
+ "C14": dict(
+   text="Symbolic fault schedule: every ledger write/delete of a commit fails or not by a symbolic bit, for both commits, then the commit is retried with fresh symbolic faults until a fault-free attempt: a failed call makes the commit return an ExternalError; after every attempt each owned entry is either written (left the write set, register = latest, cache updated) or still pending with its register untouched; reads keep returning the latest values; the fault-free retry leaves registers equal to the single fault-free commit and the owned write set empty; temporary entries stay pending and unwritten.",
+   note="Bounds: 2 (quick) / 3 (thorough) pending entries (stores/deletes, optional temporary), 1 / 1..2 workers as modelled goroutines, 1 / 2 faulty attempts before the fault-free one. Outside: encode errors here (covered in C16), more entries/workers.",
+   ref="6/C14"),
+ "C15": dict(
+   text="One inductive step of every storage API call (Store, Remove, RetrieveIfLoaded, RetrieveIgnoringDeltas with/without cache fill, undefined-id rejection, both commits, drop write set+cache, sequential BatchPreload) from ANY coherent (write set, cache, ledger) state: afterwards Retrieve shows the pure overlay model's view for every identifier (most recent store/remove, else committed), commits make the ledger equal the view on owned ids and empty the owned write set, drops revert to the last commit, preload and cache-bypassing reads leave the view unchanged; Deltas / DeltasWithoutTempAddresses agree with the model. The coherence invariant is re-established, so the step is inductive.",
+   note="Bounds and stubs as C03. Outside: BatchPreload's parallel path (>=11 ids), DeltasSizeWithoutTempAddresses/HasUnsavedChanges (being added).",
+   ref="6/C15"),
+ "C16": dict(
+   text="FastCommit and NondeterministicFastCommit with 2 workers as modelled goroutines: every sync-level interleaving (up to partial-order equivalence) of workers and committer is explored with a vector-clock happens-before detector on every heap and map access; a data race, deadlock, send on closed channel or panic in a worker is a violation (races are confirmed natively with the Go race detector before being reported). The parallel result (registers, write set, cache, error) equals the sequential overlay model, with symbolic encode failures per slab.",
+   note="Bounds: 2 (quick) / 3 (thorough) pending entries, 2 workers; scheduling points at channel send/receive, blocking select and WaitGroup.Wait (close, non-blocking select and Done are ordered with their goroutine's neighbouring points). EncodeSlab is the abstract codec, so races inside the real encoders/pools are not seen here. Outside: BatchPreload's parallel path, independent client goroutines sharing the process-wide pools (sequential pool discipline only), GOMAXPROCS/real-scheduler effects.",
+   ref="6/C16"),
  "C20": dict(
    text="CheckStorageHealth on every valid forest of slab doubles within the bound (accepted, true root set returned, wrong expected root count rejected) and on every single corruption of the four kinds the property names (deleted referenced slab, extra unreferenced slab, slab referenced from two places, cross-owner reference), each applied at every position: rejected.",
    note="Bounds: 3 (quick) / 5 (thorough) slabs, every parent assignment, one reference optionally nested in a non-reference wrapper, expected root count symbolic in -1..n+1. Outside: larger graphs; cyclic graphs (not produced by valid histories or the named corruptions; the engine observed that CheckStorageHealth does not terminate on some cycles, recorded in DESIGN.md as an observation outside C20).",
